@@ -103,6 +103,18 @@ def build(case, with_mods=True, via="constructor"):
         other.ode_modifier["H"] = {"factors": ["zz"], "reactants": [["H2"]]}
         om["H2"] = {"factors": ["ww"], "reactants": [["H"]]}
         return net
+    if via == "reassign":
+        # fetch the table, change it, hand it back through the setter (also: hand back the very object the getter returned)
+        net = Network(reacs)
+        t = net.rate_modifier
+        t.update(kw.get("rate_modifier", {}))
+        net.rate_modifier = t
+        o = net.ode_modifier
+        o.update({k: {"factors": list(v["factors"]), "reactants": [list(x) for x in v["reactants"]]} for k, v in kw.get("ode_modifier", {}).items()})
+        net.ode_modifier = o
+        net.rate_modifier = net.rate_modifier
+        net.ode_modifier = net.ode_modifier
+        return net
     if via == "inplace":
         # ... and entered one by one into the tables the accessors hand out
         net = Network(reacs)
@@ -183,6 +195,7 @@ def run_case(case):
             f2 = render(build(case, True, "setter"), "dense", TEMPL)
             f3 = render(build(case, True, "inplace"), "dense", TEMPL)
             f4 = render(build(case, True, "shared-table"), "dense", TEMPL)
+            f5 = render(build(case, True, "reassign"), "dense", TEMPL)
         o0 = observe(f0)
         o1 = observe(f1)
     except NotC as e:
@@ -199,6 +212,9 @@ def run_case(case):
     if f3 != f1:
         diff = sorted(k for k in f1 if f1[k] != f3.get(k))
         viols.append((f"C13:inplace-differs", f"{label}: the modifiers entered into net.rate_modifier / net.ode_modifier in place render {diff} differently from the same modifiers given to the constructor", case))
+    if f5 != f1:
+        diff = sorted(k for k in f1 if f1[k] != f5.get(k))
+        viols.append((f"C13:reassign-differs", f"{label}: the tables were fetched through the accessors, filled and assigned back through the setters (the object the getter returned): the network renders {diff} differently from one given the tables at construction", case))
     if f4 != f1:
         diff = sorted(k for k in f1 if f1[k] != f4.get(k))
         viols.append((f"C13:shared-table-differs", f"{label}: a second network was built from the same modifier tables and entries were then changed (in the caller's tables and through the second network): the first network renders {diff} differently from a network given the tables alone", case))
